@@ -16,6 +16,7 @@ CORPUS = [
     "ff00000", "gg0000", "ff0000ff", "ff0000f", "fffffffff", "ｆｆ0000", " ff 80", "ff 80 00", "ff\t0000", "0xff00", "ff00 00f", "1,2,3", "1,2", "1,2,3,4", "a,b,c", " 1, 2 ,3", "1,2,", "M", "I",
     "m", "255", "254", "253", "1.4", "1.3", "1.4.0", "1.3.9", "1.10", "2", "2.2.0", "9.9.9", "abc", "0.5", "-0.5", "-1.0", "-1.01",
     "1.0", "1.01", "50", "99", "+7", "٣٠", "text with blanks", "x" * 300, "0.0", "00", "1 ", "stable", "é",
+    "1.4b1", "1.4rc1", "1.4.0-beta", "1.4.0-rc.1", "1.3b1", "1.4.1b1", "1.5b1", "2.0.0-beta", "2.2.0-rc.1",
 ]
 GOOD = {
     "ANY": "x", "EMPTY": "", "BINARY": "1", "PERCENT_INT": "50", "UNIT_FLOAT_0_100": "50.5", "SIGNED_UNIT": "0.5",
@@ -100,13 +101,35 @@ def check_lines(chunk):
     return viols, stats, samples
 
 
+def table_fingerprint():
+    """Sizes and member lists of every version's lazily built, partly shared validation tables: validating must
+    never change them (a grown table changes later verdicts, possibly of another version)."""
+    from mysensors.const import get_const
+
+    out = []
+    for version in ref_valid.VERSIONS:
+        const = get_const(version)
+        out.append(tuple((int(k), tuple(int(m) for m in v)) for k, v in const.VALID_TYPES.items()))
+        out.append(tuple((int(k), tuple(sorted(int(m) for m in v))) for k, v in const.VALID_MESSAGE_TYPES.items()))
+        out.append(tuple((int(k), len(v)) for k, v in const.VALID_PAYLOADS.items()))
+    return tuple(out)
+
+
 def check_children(chunk):
     import voluptuous as vol
     from mysensors.sensor import ChildSensor
 
     logging.disable(logging.CRITICAL)
     viols, stats, samples = [], collections.Counter(), []
+    before = table_fingerprint()
     for version, ptype in chunk:
+        try:
+            ChildSensor(0, ptype).validate(version, {})
+        except Exception:  # pylint: disable=broad-except
+            pass  # judged below
+        if table_fingerprint() != before:
+            viols.append(Violation(PROP, "validation-mutates-tables", f"{version}: validating a child of type {ptype} changed the validation tables of the const modules", {"kind": "input", "check": PROP, "case": [version, "child", ptype, {}]}))
+            break  # later verdicts of this process are meaningless (and the tables may keep growing)
         cases = [({}, "ACCEPT")]
         for vt in ref_valid.TABLES[version][1]:
             for payload in CORPUS[::3] + ["0", "1", "50", "Off", "Min", "ff0000", "ff0000ff", "1,2,3", "0.5"]:
@@ -185,6 +208,24 @@ def check_load_order(chunk):
                         lines.append((version, f"1;{child};{cmd};0;{sub};{GOOD[rule] if rule else ''}"))
                         lines.append((version, f"1;{child};{cmd};0;{sub};x"))
         v, st, sm = check_lines(lines)
+        # child schemas of every version after the schemas of every other version were built, same process
+        from mysensors.sensor import ChildSensor
+        import voluptuous as vol
+
+        before = table_fingerprint()
+        for _ in range(2):
+            for version in versions:
+                for ptype in ref_valid.VALUE_TYPES[version]:
+                    stats["load_order_lines"] += 1
+                    try:
+                        ChildSensor(0, ptype).validate(version, {})
+                    except vol.Invalid:
+                        v.append(Violation(PROP, "child-schema-verdict|expected-ACCEPT", f"{version}: child type {ptype} without values rejected", None))
+                    except Exception as exc:  # pylint: disable=broad-except
+                        v.append(Violation(PROP, f"child-schema-internal-error|{type(exc).__name__}", f"{version}: ChildSensor(type {ptype}).validate({{}}) raised {type(exc).__name__}: {short(str(exc))} after other versions' schemas were built", None))
+            if table_fingerprint() != before:
+                v.append(Violation(PROP, "validation-mutates-tables", "building child schemas changed the validation tables of the const modules", None))
+                break
         for viol in v:
             viol.signature = "load-order|" + viol.signature
             viol.replay = {"kind": "input", "check": PROP, "case": ["load-order", order]}
@@ -249,7 +290,7 @@ def run(tier):
     cov["table_checks"] = ntab
     cov["samples"] = (m1 + m2)[:8]
     cov["regression_oracle_note"] = "the assignment of payload rules to sub-types in mc/ref_valid.py records the pinned tree's choice after review against the serial API; for those rows the check is a regression oracle"
-    report.assumptions = ["golden tables in mc/ref_valid.py (hand-written, no import from mysensors)", "UNSPEC verdicts (child id outside 0..255 on id request/response, non-numeric version texts) are skipped and counted"]
+    report.assumptions = ["golden tables in mc/ref_valid.py (hand-written, no import from mysensors)", "UNSPEC verdicts (child id outside 0..255 on id request/response, version texts that are neither dotted numbers nor a dotted number with an a/b/rc/alpha/beta/dev pre-release tag) are skipped and counted", "a pre-release of X is ordered before X and after every release below X (PEP 440 and semver agree), so 1.4b1 is not >= 1.4 while 1.4.1b1 and 2.0.0-beta are"]
     return report.finish()
 
 
